@@ -4,7 +4,7 @@
 # 1. scratch worktree of /repo HEAD: run.sh must exit 0 on the clean tree
 # 2. apply patch.diff: the repository's Go tests must still pass; run.sh must exit non-zero
 # 3. run the named check(s) (comma separated) against the patched worktree (VERIF_REPO)
-# 4. remove the worktree.   env SKIPDEMO=1 skips the run.sh steps, SKIPTESTS=1 the test suite.
+# 4. remove the worktree.   env VERIF_DIR=<snapshot of /verif made by tools/snap.sh> runs the checks of that frozen snapshot.   env SKIPDEMO=1 skips the run.sh steps, SKIPTESTS=1 the test suite.
 set -u
 D=$(realpath $1); IDS=$2; TIER=${3:-quick}; SEED=${4:-1}
 N=$(basename $(dirname $D))-$(basename $D)
@@ -25,10 +25,11 @@ if [ -z "${SKIPDEMO:-}" ]; then
   ( cd $D && timeout 600 bash ./run.sh $WT ) > $L.demo-patched 2>&1; echo "$N: demo on patched tree: exit $?"
   rm -rf $WT/gen
 fi
-cd /verif
+VD=${VERIF_DIR:-/verif}
+cd $VD
 for ID in ${IDS//,/ }; do
   s=$(date +%s)
-  VERIF_SEED=$SEED VERIF_REPO=$WT bin/vcheck $ID --tier $TIER > $L.$ID.out 2> $L.$ID.err; st=$?
+  VERIF_DIR=$VD VERIF_SEED=$SEED VERIF_REPO=$WT bin/vcheck $ID --tier $TIER > $L.$ID.out 2> $L.$ID.err; st=$?
   echo "$N: check $ID tier=$TIER seed=$SEED exit=$st violations=$(grep -c VIOLATION $L.$ID.out) wall=$(( $(date +%s)-s ))s"
   grep -E "violation sig" $L.$ID.err | head -6 | cut -c1-260
 done
